@@ -230,6 +230,20 @@ func runC11(c *Ctx) {
 					map[string]interface{}{"verb": "AUTHSEQ", "case": sx2, "go": res2, "reference_go": resF})
 			}
 		}
+		// the same limits supplied as three separate WithWorldOptions values
+		{
+			as := a
+			as.Ctor = "for"
+			as.SplitOpts = true
+			ref := a
+			ref.Ctor = "for"
+			resRef, _ := emitAuth(c, "split-ref", ref)
+			resS, sxS := emitAuth(c, "split", as)
+			if resRef != "environment-timeout" && resS != "environment-timeout" && resRef != resS {
+				c.Violate("C11/options-not-combined", "limits supplied through several WithWorldOptions values are not all honoured: one option -> "+resRef+", separate options -> "+resS,
+					map[string]interface{}{"verb": "AUTHSEQ", "case": sxS, "go": resS, "reference_go": resRef})
+			}
+		}
 		var first, firstSx string
 		for _, ctor := range []string{"for", "auth", "verifier"} {
 			ac := a
